@@ -24,7 +24,7 @@ func (C03) Plan(tier string) core.Plan {
 
 func (C03) Info() core.Info {
 	return core.Info{
-		Rule:        "targets with 1-4 parameters of concrete types (named / type-only, with and without subtype, struct / pointer-struct / positional / built forms); for every parameter an exactly keyed supplied value; the same Func is called 1-3 times with fresh instances of the supplied values; then 0-8 distractors: same-typed values under other names and subtypes, type-only duplicates, providers and converters (type-only and name-using, run-once, generated, cyclic) that could also produce each parameter; each world under 8-24 seeded iteration-order schedules incl. adversarial single-site orders. Oracle: no error, no converter executed, each named parameter holds the token supplied under exactly its key, each type-only parameter a supplied token of exactly its type. Non-trivial: at least one distractor converter could produce a parameter; distinct = distinct (world shape, event-log hash)",
+		Rule:        "targets with 1-4 parameters of concrete types (named / type-only, with and without subtype, struct / pointer-struct / positional / built forms); for every parameter an exactly keyed supplied value; the same Func is called 1-3 times with fresh instances of the supplied values; then 0-8 distractors: same-typed values under other names and subtypes, type-only duplicates, providers and converters (type-only and name-using, run-once, generated, cyclic) that could also produce each parameter; each world under 8-24 seeded iteration-order schedules incl. adversarial single-site orders. Oracle: no error, no converter executed, each named parameter holds the token supplied under exactly its key, each type-only parameter a supplied token of exactly its type; positional targets may repeat a type; unnamed array types and embedded-type parameters occur; a refused construction is a violation. Non-trivial: at least one distractor converter could produce a parameter; distinct = distinct (world shape, event-log hash)",
 		Assumptions: []string{"parameters have concrete types (an interface-typed parameter cannot have an exactly keyed supply)"},
 		Probes:      []string{"c03_calls", "c03_repeated_calls", "c03_distractor_could_produce", "c03_same_type_other_name", "c03_typeonly_params", "s1_nonidentity_perms"},
 		Real:        realComponents,
